@@ -489,6 +489,31 @@ def run_cases(ctx, cases):
     return ofail, mism
 
 
+def translate_and_prove(ctx):
+    """Decision tokens (`dev_lag > cell.dev_lag(unit)`, `row[-1]`) regenerated from source."""
+    from translate import t_acc
+
+    name = "T-acc translation (_make_right_triangle_slice comparison, right_edge row index)"
+    try:
+        gen = t_acc.translate_c15(REPO)
+    except t_acc.Unsupported as ex:
+        ctx.obligation(name, False, str(ex))
+        ctx.log(f"translator failed closed: {ex}")
+        return False
+    except Exception as ex:  # noqa: BLE001
+        ctx.obligation(name, False, repr(ex))
+        return False
+    ctx.obligation(name, True)
+    (ctx.build / "GenExt.v").write_text(gen)
+    rc, out = ctx.coqc(ctx.build / "GenExt.v", timeout=300)
+    ctx.obligation("GenExt.v compiles", rc == 0, out)
+    if rc != 0:
+        return False
+    shutil.copy(COQ / "GenProps" / "C15_Gen.v", ctx.build / "C15_Gen.v")
+    ok, _ = ctx.prove(ctx.build / "C15_Gen.v", timeout=600)
+    return ok
+
+
 def run(ctx):
     warnings.simplefilter("ignore")
     ctx.rule = (
@@ -512,8 +537,10 @@ def run(ctx):
         "make_right_diagonal(include_historic=True) is outside the placement clause (it is asked to re-create "
         "historic diagonals); it is tied to the model only",
     ]
-    ctx.audit_tree(["Model/Extend.v", "Proofs/Extend.v", "Props/C15.v", "GenProps/C15_Tie.v"])
+    ctx.audit_tree(["Model/Extend.v", "Proofs/Extend.v", "Proofs/AccessorsCal.v", "Props/C15.v",
+                    "GenProps/C15_Tie.v", "GenProps/C15_Gen.v"])
     ctx.prove_static("Props/C15.v", timeout=900)
+    translate_and_prove(ctx)
     for f in ctx.build.glob("cases_*.v*"):
         f.unlink()
     shutil.copy(COQ / "GenProps" / "C15_Tie.v", ctx.build / "C15_Tie.v")
